@@ -183,6 +183,17 @@ class VTuple(V):
         return f"VTuple{self.items}"
 
 
+class VNamedTuple(VTuple):
+    """Instance of a typing.NamedTuple class of the repo: a tuple whose items can also be read by field name."""
+    kind = "tuple"
+    __slots__ = ("names", "cls")
+
+    def __init__(self, items, names, cls=None):
+        super().__init__(items)
+        self.names = tuple(names)
+        self.cls = cls
+
+
 class VTable(VTuple):
     """A constant table with a proved functional description: T[i] == fn(i) for
     every index (the description is itself an obligation of the pack, checked
